@@ -42,6 +42,14 @@ INFO = {
  "C11r2-consumed-flag": ("C11", "'already handled' bookkeeping as one boolean flag cleared only in the catch-all branch (two cooperating sites)", "a documented set()/generic command directly followed by an undocumented ct_add_test/ct_add_section/add_test: that test is dropped"),
  "C19r2-realpath-input": ("C19", "cminx_gen_rst resolves the input with get_filename_component(... REALPATH) before forwarding it", "an input path that is (or contains) a symbolic link"),
  "C20r2-stale-str-cache": ("C20", "RSTWriter.__str__ caches its text keyed by heading object and element counts", "serialise, then mutate a descendant (counts of the ancestor unchanged), then serialise again"),
+ "C01r3-indent-cap-32": ("C01", "block indentation measured with the regex [ \\t]{0,32}: capped at 32 characters", "a doccomment block indented by more than 32 spaces/tabs"),
+ "C02r3-consumed-trim-96": ("C02", "the 'consumed' list is trimmed when it reaches 96 entries, wiping the current command's own contexts", "a file with >= 32 documented commands, the 32nd one having a processor: it gets a second, doc-less entry"),
+ "C03r3-definition-stack-cap-8": ("C03", "definition stack replaced by a list subclass that stores at most 8 frames and only counts deeper ones", "function/macro definitions nested more than 8 deep with cmake_parse_arguments in a deep body"),
+ "C05r3-paren-depth-cap-32": ("C05", "ParserErrorStrategy.sync() reports 'nested too deeply' when the rule depth exceeds 32", "parenthesised argument groups nested 30+ deep (valid CMake)"),
+ "C09r3-class-stack-deque-8": ("C09", "class stack is a deque(maxlen=8) and cpp_end_class pops only a non-empty stack (two cooperating sites)", "classes nested 9+ deep with members declared after the inner class"),
+ "C11r3-consumed-trim-80": ("C11", "enterBracket_doccomment trims the 'consumed' list when it exceeds 80 entries, dropping the pending invocation", "more than 26 documented commands in one file; the 27th is a test command: emitted twice"),
+ "C13r3-walk-depth-cap": ("C13", "os.walk loop clears subdirs below MAX_WALK_DEPTH = 8 (framed as symlink-cycle protection)", "a tree with 10 or more nested directory levels"),
+ "C20r3-indent-cache-off-by-one": ("C20", "get_indents() uses a precomputed table for levels 0-7 and an off-by-one recursion beyond", "directives nested 8 or more levels deep"),
  "C18r2-sort-by-splitext": ("C18", "files sorted by (stem, extension) instead of by name", "a directory with names like Foo.cmake and Foo-x.cmake: stdout page order is not the sorted name order"),
 }
 
@@ -65,7 +73,7 @@ for name, (prop, change, needs) in INFO.items():
     d = os.path.join(R, "seeded", name)
     if not os.path.isdir(d):
         continue
-    r2 = "r2" if "r2-" in name else ""
+    r2 = "r2" if "r2-" in name else ("r3" if "r3-" in name else "")
     after = parse(os.path.join(R, ".logs", "seed%s_%s.log" % (r2, prop)))
     before = parse(os.path.join(R, ".logs", "seed%sbefore_%s.log" % (r2, prop)))
     meta = {"breaks_property": prop, "change": change, "needs_to_manifest": needs,
